@@ -4,6 +4,7 @@
      1 = model observation differs from the implementation's
      2 = the verified specification checker rejects the implementation's observation
      4 = a known-finding trigger predicate is true of the case
+         (kf c <> 0; the trigger's number is added as 16 * kf c)
      8 = the specification checker rejects the MODEL's observation
          (with bit 4 clear this contradicts the property theorem)
    Only cases with bit 1, 2 or 8 set are listed; the number of trigger hits is
@@ -16,14 +17,15 @@ Section C.
   Variable model : C -> O.
   Variable oeq : O -> O -> bool.
   Variable spec : C -> O -> bool.
-  Variable kf : C -> bool.
+  Variable kf : C -> N.   (* 0 = no known-finding trigger applies; n = trigger number n of the suite *)
 
   Definition code_of (c : C) (o : O) : N :=
     let m := model c in
     ((if oeq m o then 0 else 1) + (if spec c o then 0 else 2)
-     + (if kf c then 4 else 0) + (if spec c m then 0 else 8))%N.
+     + (if N.eqb (kf c) 0 then 0 else 4) + (if spec c m then 0 else 8) + 16 * kf c)%N.
 
   Definition interesting (k : N) : bool := negb (N.eqb (N.land k 11) 0).
+  Definition no_kf : C -> N := fun _ => 0%N.
 
   Fixpoint check_from (i : N) (l : list (C * O)) : list (N * N) * N :=
     match l with
@@ -39,3 +41,4 @@ Section C.
 End C.
 
 Arguments check_all {C O} model oeq spec kf l.
+Arguments no_kf {C} _.
